@@ -212,15 +212,19 @@ def random_directions_within_bounds(num_pts, delta, lower, upper):
 def apply_scaling(x_raw, scaling_changes):
     if scaling_changes is None:
         return x_raw
-    shift, scale = scaling_changes
+    shift, scale = scaling_changes[0], scaling_changes[1]
     return (x_raw - shift) / scale
 
 
 def remove_scaling(x_scaled, scaling_changes):
     if scaling_changes is None:
         return x_scaled
-    shift, scale = scaling_changes
-    return shift + x_scaled * scale
+    shift, scale = scaling_changes[0], scaling_changes[1]
+    x = shift + x_scaled * scale
+    if len(scaling_changes) > 2:
+        # shift + 1.0*scale = xl + (xu - xl) can exceed xu by rounding: never return a point above the true upper bound
+        x = np.minimum(x, scaling_changes[2])
+    return x
 
 
 def dykstra(P,x0,max_iter=100,tol=1e-10):
